@@ -186,7 +186,9 @@ func readerOps() []readerOp {
 		{"merge(with the segment as input)", func(seg segment.Segment, _ *[]string, _ *sync.Mutex) string {
 			path := zx.TempPath("c11m")
 			defer zx.Remove(path)
-			maps, _, err := zx.Plugin.Merge([]segment.Segment{seg}, []*roaring.Bitmap{roaring.BitmapOf(1)}, path, nil, nil)
+			// the segment twice, a different document dropped from each copy: both inputs take
+			// the decode-and-rewrite path, one after the other
+			maps, _, err := zx.Plugin.Merge([]segment.Segment{seg, seg}, []*roaring.Bitmap{roaring.BitmapOf(1), roaring.BitmapOf(0)}, path, nil, nil)
 			if err != nil {
 				return "error: " + err.Error()
 			}
@@ -381,7 +383,7 @@ func init() {
 	run.Register(&run.Def{
 		ID:          "C11",
 		Level:       "model_checking",
-		Rule:        "stateless model checking of the real reader code under a controlled scheduler (sync.Mutex / RWMutex / Pool and `go` replaced at build time by modelled primitives; every lock, pool and callback operation is a scheduling point; which object sync.Pool.Get returns is an environment choice explored up to 1 deviation): one shared segment (3 documents: text fields with doc values and stored values, a thesaurus; in-memory and mmap-opened, built afresh in every execution) and a menu of 12 operations (dictionary + full postings iteration; a lookup of an absent term followed by a lookup that reuses its list and iterator as preallocation; a lookup of an absent term alone (both yield while holding the shared empty-iterator sentinel); full stored-field visits of two documents; visits stopping after the first / second field; DocID; DocNumbers; doc values with a private state; thesaurus lookup; Merge with the segment as input). Every visitor callback snapshots the bytes it was given, yields to the scheduler and compares them on resumption. Explored: every pair of non-merge operations with ALL interleavings; every (operation, merge) pair and every triple of non-merge operations with a preemption bound (1 quick / 2 thorough); each preceded by a sequential prefix history of length <= 1 (quick: none / visit stopped after _id / visit stopped after 2 fields; thorough: every operation of the menu). Oracle: every call returns its sequential answer; callback bytes stay unchanged; no object is put into a pool twice / handed to two owners; no deadlock; every failing schedule is replayed twice before it is reported. Complemented by a separate free-running pass of the same bodies under the Go race detector (a cooperative scheduler's hand-offs hide races from it).",
+		Rule:        "stateless model checking of the real reader code under a controlled scheduler (sync.Mutex / RWMutex / Pool and `go` replaced at build time by modelled primitives; every lock, pool and callback operation is a scheduling point; which object sync.Pool.Get returns is an environment choice explored up to 1 deviation): one shared segment (3 documents: text fields with doc values and stored values, a thesaurus; in-memory and mmap-opened, built afresh in every execution) and a menu of 12 operations (dictionary + full postings iteration; a lookup of an absent term followed by a lookup that reuses its list and iterator as preallocation; a lookup of an absent term alone (both yield while holding the shared empty-iterator sentinel); full stored-field visits of two documents; visits stopping after the first / second field; DocID; DocNumbers; doc values with a private state; thesaurus lookup; Merge with the segment as both of its two inputs, a different document dropped from each, so that two inputs in a row are decoded and rewritten). Every visitor callback snapshots the bytes it was given, yields to the scheduler and compares them on resumption. Explored: every pair of non-merge operations with ALL interleavings; every (operation, merge) pair and every triple of non-merge operations with a preemption bound (1 quick / 2 thorough); each preceded by a sequential prefix history of length <= 1 (quick: none / visit stopped after _id / visit stopped after 2 fields; thorough: every operation of the menu). Oracle: every call returns its sequential answer; callback bytes stay unchanged; no object is put into a pool twice / handed to two owners; no deadlock; every failing schedule is replayed twice before it is reported. Complemented by a separate free-running pass of the same bodies under the Go race detector (a cooperative scheduler's hand-offs hide races from it).",
 		Assumptions: []string{"scheduling points are placed at synchronisation operations only; unsynchronised accesses between them are delegated to the free-running -race pass, which is dynamic detection, not enumeration", "Go map iteration order inside zapx is not controlled (it does not change the synchronisation skeleton)"},
 		Bounds:      map[string]string{"quick": "non-merge pairs: all interleavings x prefixes {none, 2 early-stopped visits}; merge pairs and every second triple: preemption bound 1; race pass 30 free runs per case", "thorough": "non-merge pairs: all interleavings x all 11 prefixes; merge pairs and triples: preemption bound 2; race pass"},
 		Flavours:    func(string) []string { return []string{"inst", "race"} },
